@@ -28,6 +28,7 @@ CONSTANTS MaxDepth, MaxTerms, MaxLen, Bound,
           Scalars,             \* subset of 1..3
           Ops,                 \* subset of {"add","sub","mul"}
           Targets,             \* names that may receive the result of a binary form
+          ZeroReps,            \* representation only: which initial object additionally stores an explicit zero-coefficient entry
           Export               \* "none" | "all" (every explored transition) | "leaf" (histories of length MaxDepth)
 
 Names == {"a", "b", "c"}
@@ -47,6 +48,13 @@ ClsTangelo == {c \in ClsPool : Tangelo(c[1])}
 ValsOnlyA == {ValA}
 ValsOnlyB == {ValB}
 ValsAB    == {ValA, ValB}
+ValsAZ    == {ValA, OpZero}                 \* the empty operator as an operand
+ValsZero  == {OpZero}
+ValsZeroId == {OpZero, ValId}
+ValsBZ    == {ValB, OpZero}
+Vals1Z    == Vals1 \cup {OpZero}
+ZeroNone  == {"none"}
+ZeroAll   == {"none", "a", "b"}
 ThirdNull == {Null}
 ThirdSome == {Null} \cup {Obj(c[1], c[2], ValC) : c \in ClsMain}
 ScalarsAll == {1, 2, 3}
@@ -59,12 +67,12 @@ TargetsAC  == {"a", "c"}
 ObjX(o) == [cls |-> o.cls, ann |-> o.ann, val |-> ValSeq(o.val)]
 HeapX(h) == [a |-> ObjX(h["a"]), b |-> ObjX(h["b"]), c |-> ObjX(h["c"])]
 
-Init == \E ca \in ClsA, cb \in ClsB, va \in ValsA, vb \in ValsB, t \in Thirds :
+Init == \E ca \in ClsA, cb \in ClsB, va \in ValsA, vb \in ValsB, t \in Thirds, zr \in ZeroReps :
           /\ heap = [n \in Names |-> IF n = "a" THEN Obj(ca[1], ca[2], va)
                                      ELSE IF n = "b" THEN Obj(cb[1], cb[2], vb) ELSE t]
           /\ d = 0
           /\ hist = <<>>
-          /\ h0 = HeapX(heap)
+          /\ h0 = [a |-> ObjX(heap["a"]), b |-> ObjX(heap["b"]), c |-> ObjX(heap["c"]), zero |-> zr, zkey |-> K3]
 
 Bound1(v) == ValOK(v, MaxTerms, MaxLen, Bound)
 
